@@ -209,6 +209,9 @@ def run(ctx):
                       {"verdict": [str(x)[:200] for x in vs[0]], "dtype": byid[cid].get("dtype", "float64")})
     for c in cases:
         ctx.count(("T", c["v"]), True)
+    # ---- growth beyond C17: the knee-ranking heuristics built on these primitives (notes only)
+    from harness import growth
+    growth.ranking(ctx)
 
 
 def replay(ctx, obj):
